@@ -339,6 +339,25 @@ theorem vidxOf_last (mask : List Bool) (hne : mask ≠ []) : (mask.filter id).le
         rw [← hl]
         exact List.mem_of_getLast? hgl
 
+/-- `pa.array(scalars)` of a dtype and any chunk of the same dtype and length line up field by
+    field (the side conditions of the `if_else` lemmas) -/
+theorem ofScalars_lineup (ty : List (String × String)) (xs : List (PScalar α)) (b : PStruct α) (n : Nat)
+    (hx : xs.length = n) (hty : b.ty = ty) (hkr : ∀ k ∈ b.kids, k.list.rows.length = n) :
+    (PStruct.ofScalars ty xs).kids.length = b.kids.length ∧
+    ∀ (j : Nat) (ka kb : PField α), (PStruct.ofScalars ty xs).kids[j]? = some ka → b.kids[j]? = some kb →
+      ka.name = kb.name ∧ ka.list.rows.length = n ∧ kb.list.rows.length = n := by
+  have hbl : b.kids.length = ty.length := by rw [← hty]; simp [PStruct.ty]
+  refine ⟨by rw [hbl]; simp [PStruct.ofScalars], ?_⟩
+  intro j ka kb hja hjb
+  have hjl : j < b.kids.length := (List.getElem?_eq_some_iff.mp hjb).1
+  have htyj : ty[j]? = some (kb.name, kb.ty) := by
+    rw [← hty]; simp [PStruct.ty, hjb]
+  simp only [PStruct.ofScalars, List.getElem?_map, List.getElem?_range (by omega : j < ty.length),
+    Option.map_some, Option.some.injEq] at hja
+  subst hja
+  refine ⟨by simp [htyj], ?_, hkr kb (List.mem_of_getElem? hjb)⟩
+  simp [PList.ofRows_rows, hx]
+
 /-- at a set position the index is the number of set positions before it -/
 theorem vidxOf_getD (m : List Bool) (i : Nat) (hi : i < m.length) (hm : m.getD i false = true) :
     (vidxOf m).getD i 0 = rankIn m i := by
